@@ -1819,6 +1819,73 @@ func (g *aliasGen) reuse(c *aliasCall) *aliasCall {
 }
 
 // ---------------------------------------------------------------------------------------------
+// engine-internal sharing (not a C17 violation by itself) and the single-document-write oracle
+
+// aliasInternalSharing reports whether two different stored documents of the user namespaces
+// share a bson.D/bson.A backing array (mongokit.Apply stores references to the values of the
+// call-private update document in every document it updates).
+func aliasInternalSharing(e *lungo.Engine) bool {
+	owner := map[uintptr]*bson.D{}
+	for h, coll := range e.Catalog().Namespaces {
+		if h == lungo.Oplog {
+			continue
+		}
+		for _, d := range coll.Documents.List {
+			w := aliasNewWalker(false)
+			w.walk(reflect.ValueOf(*d), 0)
+			for _, c := range w.conts {
+				if c.Kind() != reflect.Slice || c.Type().Elem().Kind() == reflect.Uint8 {
+					continue
+				}
+				if o, ok := owner[c.Pointer()]; ok && o != d {
+					return true
+				}
+				owner[c.Pointer()] = d
+			}
+		}
+	}
+	return false
+}
+
+// aliasDocFPs fingerprints every stored document of the user namespaces.
+func aliasDocFPs(e *lungo.Engine) map[lungo.Handle][]string {
+	out := map[lungo.Handle][]string{}
+	for h, coll := range e.Catalog().Namespaces {
+		if h == lungo.Oplog {
+			continue
+		}
+		l := make([]string, len(coll.Documents.List))
+		for i, d := range coll.Documents.List {
+			l[i] = aliasFP(d, aliasNorm{})
+		}
+		out[h] = l
+	}
+	return out
+}
+
+// aliasChanged counts documents removed from / added to the multiset of fingerprints.
+func aliasChanged(before, after []string) (gone, added int) {
+	m := map[string]int{}
+	for _, x := range before {
+		m[x]++
+	}
+	for _, x := range after {
+		if m[x] > 0 {
+			m[x]--
+		} else {
+			added++
+		}
+	}
+	for _, n := range m {
+		gone += n
+	}
+	return
+}
+
+var aliasSingleDocWrites = map[string]bool{"InsertOne": true, "UpdateOne": true, "UpdateByID": true, "ReplaceOne": true, "DeleteOne": true,
+	"FindOneAndDelete": true, "FindOneAndReplace": true, "FindOneAndUpdate": true}
+
+// ---------------------------------------------------------------------------------------------
 // one case
 
 type aliasStep struct {
@@ -1891,8 +1958,25 @@ func aliasRunCase(seed uint64) []aliasStep {
 		catBefore := A.engine.Catalog()
 
 		// first call
+		var fpsBefore map[lungo.Handle][]string
+		if aliasSingleDocWrites[c.method] {
+			fpsBefore = aliasDocFPs(A.engine)
+		}
 		resA := A.exec(c)
 		st.Class = resA.class
+		if fpsBefore != nil {
+			// independent oracle against exploitable engine-internal sharing: a single-document write
+			// changes at most one stored document, and only in its own namespace
+			target := lungo.Handle{aliasNS[c.ns][0], aliasNS[c.ns][1]}
+			fpsAfter := aliasDocFPs(A.engine)
+			for h, l := range fpsAfter {
+				gone, added := aliasChanged(fpsBefore[h], l)
+				if (h != target && gone+added > 0) || gone > 1 || added > 1 {
+					viol("write-leaks-to-other-doc:"+c.method, fmt.Sprintf("%s: %d documents gone, %d new after a single-document write on %s", h, gone, added, target))
+				}
+			}
+		}
+		sharing := aliasInternalSharing(A.engine)
 		stored := A.engine.Catalog() != catBefore && argWalk.nonEmpty > 0
 		if s2, f2 := aliasSnapshot(argVals); s2 != snap || f2 != finger {
 			viol("arg-modified:"+c.method, "arguments differ from their snapshot after the call")
@@ -1995,6 +2079,12 @@ func aliasRunCase(seed uint64) []aliasStep {
 		if stored {
 			st.tags = append(st.tags, "stored")
 		}
+		if sharing {
+			st.tags = append(st.tags, "db-internal-sharing")
+		}
+		if sharing && fpsBefore != nil && stored {
+			st.tags = append(st.tags, "single-write-on-sharing-db")
+		}
 		if returned {
 			st.tags = append(st.tags, "returned")
 		}
@@ -2016,6 +2106,59 @@ func aliasRunCase(seed uint64) []aliasStep {
 	return steps
 }
 
+// aliasSharingProbe is a fixed driver-level history around the one place where stored documents
+// share mutable nodes: UpdateMany with $set of a document/array stores the SAME bson.D/bson.A
+// (taken from the call-private update document) in every updated document. Every later write
+// path clones before writing, so writes through one document must never show in the other.
+func aliasSharingProbe() run.Case {
+	s := aliasNewSide()
+	defer s.engine.Close()
+	ctx := context.Background()
+	coll := s.coll(0)
+	var viols []run.Violation
+	req := `{"op":"alias","probe":"update-many-sharing"}`
+	bad := func(w, d string) {
+		viols = append(viols, run.Violation{Property: "C17", What: "a write through one stored document shows in another", Witness: w, Req: req, Detail: d})
+	}
+	impl := run.Safe(func() string {
+		_, _ = coll.InsertMany(ctx, []interface{}{bson.D{{Key: "_id", Value: int32(1)}}, bson.D{{Key: "_id", Value: int32(2)}}})
+		_, _ = coll.UpdateMany(ctx, bson.D{}, bson.D{{Key: "$set", Value: bson.D{{Key: "x", Value: bson.D{{Key: "a", Value: bson.A{int32(1), bson.D{{Key: "k", Value: int32(0)}}}}, {Key: "n", Value: int32(0)}}}}}})
+		shared := aliasInternalSharing(s.engine)
+		second := func() string {
+			var d bson.D
+			_ = coll.FindOne(ctx, bson.D{{Key: "_id", Value: int32(2)}}).Decode(&d)
+			return vj.Enc(d)
+		}
+		want := second()
+		updates := []bson.D{
+			{{Key: "$push", Value: bson.D{{Key: "x.a", Value: int32(2)}}}},
+			{{Key: "$set", Value: bson.D{{Key: "x.a.0", Value: int32(9)}}}},
+			{{Key: "$set", Value: bson.D{{Key: "x.a.1.k", Value: int32(7)}}}},
+			{{Key: "$inc", Value: bson.D{{Key: "x.n", Value: int32(5)}}}},
+			{{Key: "$pop", Value: bson.D{{Key: "x.a", Value: int32(-1)}}}},
+			{{Key: "$unset", Value: bson.D{{Key: "x.n", Value: ""}}}},
+			{{Key: "$rename", Value: bson.D{{Key: "x.a", Value: "x.b"}}}},
+		}
+		for i, u := range updates {
+			if _, err := coll.UpdateOne(ctx, bson.D{{Key: "_id", Value: int32(1)}}, u); err != nil {
+				bad("probe-error", fmt.Sprint(i, err))
+			}
+			if got := second(); got != want {
+				bad("write-leaks-to-other-doc:UpdateOne", fmt.Sprintf("update %d on _id 1 changed _id 2: %s -> %s", i, want, got))
+				want = got
+			}
+		}
+		// a projection with overlays reads through the shared nodes of document 1
+		var p bson.D
+		_ = coll.FindOne(ctx, bson.D{{Key: "_id", Value: int32(2)}}, options.FindOne().SetProjection(bson.D{{Key: "x", Value: int32(1)}, {Key: "x.a", Value: bson.D{{Key: "$slice", Value: int32(1)}}}})).Decode(&p)
+		if got := second(); got != want {
+			bad("write-leaks-to-other-doc:FindOne", "a projection changed the stored document: "+want+" -> "+got)
+		}
+		return fmt.Sprintf(`{"probe":"update-many-sharing","shared":%v,"second":%s}`, shared, want)
+	})
+	return run.Case{Req: "", Impl: impl, Nontrivial: true, Tags: []string{"probe"}, Viols: viols}
+}
+
 func aliasReq(seed uint64) string {
 	return fmt.Sprintf(`{"op":"alias","case":"%016x"}`, seed)
 }
@@ -2032,8 +2175,9 @@ func aliasReply(steps []aliasStep) string {
 
 func init() {
 	run.Register(&run.Stream{
-		Name: "alias",
-		Rule: "nontrivial = the call succeeded (or failed without panic) and either stored a document/index built from a non-empty container argument (catalog dump changed) or handed back at least one non-empty container (decoded document, id document/binary, distinct array, upserted-id map, raw bytes)",
+		Name:   "alias",
+		Rule:   "nontrivial = the call succeeded (or failed without panic) and either stored a document/index built from a non-empty container argument (catalog dump changed) or handed back at least one non-empty container (decoded document, id document/binary, distinct array, upserted-id map, raw bytes)",
+		Corpus: func() []run.Case { return []run.Case{aliasSharingProbe()} },
 		Gen: func(r *gen.R, idx int) []run.Case {
 			seed := r.U64()
 			req := aliasReq(seed)
